@@ -40,6 +40,7 @@ var fsReplayMode = os.Getenv("VERIF_REPLAY") != ""
 type fsRun struct {
 	sys      *fsys
 	canon    string
+	saveKey  string // canonical state without the handles
 	enabled  []string
 	sig      string
 	detail   string
@@ -58,15 +59,16 @@ func runFS(cfg fsCfg, hist []string, deepSeen map[string]bool, extra func(s *fsy
 	res := vsched.RunOne(nil, 3000000, func() {
 		s := newFsys(cfg)
 		out.sys = s
+		s.applySetup()
 		quietCanon, quietIdx := "", -1
 		if cfg.Slow {
 			quietCanon, quietIdx = s.canon(), 0
 		}
 		for i, ev := range hist {
-			s.apply(ev)
 			if s.sig != "" {
 				break
 			}
+			s.apply(ev)
 			if cfg.Slow && s.keep.inflight == 0 && i < len(hist)-1 {
 				quietCanon, quietIdx = s.canon(), i+1
 			}
@@ -76,7 +78,9 @@ func runFS(cfg fsCfg, hist []string, deepSeen map[string]bool, extra func(s *fsy
 			s.cheapProbe("after " + last)
 		}
 		out.canon = s.canon()
+		out.saveKey = s.canonOpt(false)
 		if s.keep.inflight > 0 {
+			out.saveKey += "\nPENDING from {" + quietCanon + "} via " + strings.Join(hist[quietIdx:], ";")
 			// background writes in flight carry hidden state (captured segment index, buffer
 			// snapshot): keep such states apart unless they were reached by the same events from the
 			// same quiescent state
@@ -110,6 +114,9 @@ func runFS(cfg fsCfg, hist []string, deepSeen map[string]bool, extra func(s *fsy
 		out.sig, out.detail = s.sig, s.detail
 	}
 	kind := strings.SplitN(last, " ", 2)[0]
+	if extra != nil {
+		kind = "save" // C09: the history was judged before; what follows it is a save experiment
+	}
 	switch {
 	case res.Panic != "":
 		out.sig = "panic:" + kind
@@ -140,21 +147,35 @@ func c08Configs() []fsCfg {
 		}
 	}
 	both := []bool{false, true}
+	fast := []bool{false}
 	if vrep.Thorough() {
-		add("data1", []int{1, 2, 4}, []string{"empty", "m1", "m2"}, both, 6)
-		add("data1", []int{64, 1 << 26}, []string{"empty", "m1"}, []bool{false}, 5)
-		add("data2", []int{1, 2, 4}, []string{"empty", "m2", "m3"}, both, 6)
-		add("names", []int{2}, []string{"empty", "m2", "m3"}, both, 5)
-		add("names", []int{1, 4}, []string{"m2"}, []bool{false}, 4)
-		add("flags", []int{2}, []string{"empty", "m2"}, []bool{false}, 3)
+		add("one", []int{1, 2, 4}, []string{"empty", "m1", "m2"}, both, 6)
+		add("one", []int{64, 1 << 26}, []string{"empty", "m1"}, fast, 5)
+		add("two", []int{1, 2, 4}, []string{"empty", "m1", "m2"}, both, 6)
+		add("app", []int{1, 2, 4}, []string{"empty", "m1"}, both, 6)
+		add("pack", []int{1, 2, 4}, []string{"empty", "m2", "m3"}, both, 6)
+		add("names", []int{2}, []string{"empty", "m2", "m3"}, both, 4)
+		add("names", []int{1, 4}, []string{"m2"}, fast, 4)
+		add("flags", []int{2}, []string{"empty", "m2"}, fast, 3)
 	} else {
-		add("data1", []int{1, 2, 4}, []string{"empty", "m1", "m2"}, both, 4)
-		add("data1", []int{64, 1 << 26}, []string{"empty"}, []bool{false}, 3)
-		add("data2", []int{1, 2, 4}, []string{"empty", "m2", "m3"}, both, 4)
+		add("one", []int{1, 2, 4}, []string{"empty", "m1", "m2"}, both, 4)
+		add("one", []int{64, 1 << 26}, []string{"empty"}, fast, 3)
+		add("two", []int{1, 2, 4}, []string{"empty", "m1"}, both, 4)
+		add("app", []int{1, 2}, []string{"empty", "m1"}, both, 4)
+		add("pack", []int{1, 2, 4}, []string{"empty", "m2", "m3"}, both, 4)
 		add("names", []int{2}, []string{"empty", "m2", "m3"}, both, 3)
-		add("flags", []int{2}, []string{"empty", "m2"}, []bool{false}, 2)
+		add("flags", []int{2}, []string{"empty", "m2"}, fast, 2)
 	}
 	return out
+}
+
+// per-configuration cap on distinct states: makes the amount of work (and what is covered) the same
+// on every run; the wall-clock budget (VERIF_BUDGET_S) is only a safety net on overloaded machines
+func c08MaxStates() int64 {
+	if vrep.Thorough() {
+		return 40000
+	}
+	return 8000
 }
 
 func TestVerifC08(t *testing.T) {
@@ -172,7 +193,7 @@ func TestVerifC08(t *testing.T) {
 		name := "c08 " + cfg.String()
 		samples := 0
 		m := xstate.Model{
-			Name: name, MaxDepth: cfg.Depth, Report: r, Params: cfg, NoShard: true,
+			Name: name, MaxDepth: cfg.Depth, MaxStates: c08MaxStates(), Report: r, Params: cfg, NoShard: true,
 			Run: func(hist []string) xstate.Outcome {
 				x := runFS(cfg, hist, deepSeen, nil)
 				totalPoints += int64(x.points)
@@ -187,7 +208,7 @@ func TestVerifC08(t *testing.T) {
 					r.Outcome(x.sys.outcome)
 					ev := strings.Split(hist[len(hist)-1], " ")
 					r.Distinct(cfg.Profile + "|" + ev[0] + "|" + x.sys.outcome + "|" + fmt.Sprint(cfg.Block, cfg.Slow))
-					if len(hist) == cfg.Depth && samples < 1 {
+					if len(hist) >= 3 && samples < 1 {
 						samples++
 						r.Sample(cfg.String() + ": " + strings.Join(hist, " ; "))
 					}
